@@ -8,6 +8,7 @@ RULE = ('DFAs: all total DFAs with <=2 states x <=2 symbols and 3 states x 1 sym
         'NFAs: all 2-state epsilon-NFAs over one symbol (1024; thorough also a sample of 2 symbols / 3 states), random <=7 states x <=3 symbols with epsilon moves and cycles, partial relations, '
         'empty/full F, unreachable states, epsilon symbol in {_, \'\', e}; observed nfa_accepts_word, epsilon_closure of every state and of random sets, N.E, both _nfa_cache tables. '
         'Non-trivial = at least one accepted and one rejected word, and (NFA) at least one epsilon move; distinct by automaton text.')
+RULE += ' Added after the seeded rounds: epsilon cycles of length 3-5 re-entered through a letter; alphabets with white space / punctuation; unusual state names (substrings of each other, the empty name); the same object queried, modified in place and queried again.'
 CODES = {2: 'dfa_accepts_word differs from the proved model', 3: 'nfa_accepts_word differs from the proved model', 4: 'epsilon_closure / NFA.E differs from the set of epsilon-reachable states',
          5: '_nfa_cache Eq table differs', 6: '_nfa_cache Eqa table differs', 9: 'generated automaton is not valid (harness)'}
 RESIDUE = 'delta is a defaultdict(set) as built by every library constructor; plain-dict NFAs with missing keys raise KeyError (recorded, F15)'
